@@ -24,6 +24,18 @@ PROBE = {"ns": None, "calls": 0, "source": None, "depth_before": None, "depth_af
          "raised": None, "reads": None, "stack_before_output": None}
 
 
+def _view(v, depth=0):
+    """Side-effect free view of a delivered input value: lazy lists are never iterated (forcing one
+    would run program code inside the monitor)."""
+    if type(v).__name__ == "LazyList":
+        return {"x": "lazy"}
+    if type(v) is list:
+        if depth > 6 or len(v) > 60:
+            return {"x": "list"}
+        return [_view(x, depth + 1) for x in v]
+    return canon(v, limit=5)
+
+
 def depth_tuple(ctx):
     try:
         return [len(ctx.context_values), len(ctx.inputs), len(ctx.stacks), len(ctx.function_stack)]
@@ -191,8 +203,7 @@ def install():
             nest[0] -= 1
         if PROBE["reads"] is not None and nest[0] == 0:
             try:
-                PROBE["reads"].append(["explicit" if explicit else "implicit", 0 if explicit else depth,
-                                       {"x": "lazy"} if type(v).__name__ == "LazyList" else canon(v, limit=50)])
+                PROBE["reads"].append(["explicit" if explicit else "implicit", 0 if explicit else depth, _view(v)])
             except Exception:  # noqa
                 pass
         return v
